@@ -50,7 +50,7 @@ func runConcChild(r *vlib.Run, corpus [][]byte) {
 	r.Count("conc_parallel_differential_cases", n)
 
 	// phase 2: marker rounds
-	ops := r.N(700, 7000)
+	ops := r.N(1000, 8000)
 	for _, gm := range []int{2, 6, 16} {
 		runMarkerRound(r, gm, ops)
 	}
